@@ -906,3 +906,32 @@ func Advance(d int64) {
 
 // CurrentGid returns the id of the running controlled goroutine.
 func CurrentGid() int { return getCur() }
+
+// MapKeys returns the keys of m in a deterministic order (sorted by their printed form): the instrumented packages
+// iterate maps through it so that Go's randomised iteration order cannot make an execution non reproducible.
+// MapOrderReverse flips the order (harnesses can run a scenario under both orders).
+var MapOrderReverse bool
+
+func MapKeys[M ~map[K]V, K comparable, V any](m M) []K {
+	keys := make([]K, 0, len(m))
+	strs := make([]string, 0, len(m))
+	for k := range m {
+		keys = append(keys, k)
+		strs = append(strs, fmt.Sprintf("%v", k))
+	}
+	idx := make([]int, len(keys))
+	for i := range idx {
+		idx[i] = i
+	}
+	sort.Slice(idx, func(a, b int) bool {
+		if MapOrderReverse {
+			return strs[idx[a]] > strs[idx[b]]
+		}
+		return strs[idx[a]] < strs[idx[b]]
+	})
+	out := make([]K, len(keys))
+	for i, j := range idx {
+		out[i] = keys[j]
+	}
+	return out
+}
